@@ -1,6 +1,6 @@
 (* C01 - KV store behaves as an ordered map for every operation history.  Statements only. *)
 Require Import List ZArith Lia. Import ListNotations.
-Require Import IW.KV.Node IW.KV.Spec IW.KV.Node_proofs IW.KV.Keys IW.KV.Inst IW.KV.Keys_proofs IW.KV.KeysCompound_proofs IW.KV.KeysReal_proofs IW.KV.KeysCompound2_proofs IW.KV.Skip IW.KV.Skip_proofs IW.Gen.Facts.
+Require Import IW.KV.Node IW.KV.Spec IW.KV.Node_proofs IW.KV.Keys IW.KV.Inst IW.KV.Keys_proofs IW.KV.KeysCompound_proofs IW.KV.KeysReal_proofs IW.KV.KeysCompound2_proofs IW.KV.EffKey_proofs IW.Lib.Vnum IW.KV.Skip IW.KV.Skip_proofs IW.Gen.Facts.
 
 (* For EVERY history of put (plain, no-overwrite, with an update function standing for increment / put-handler),
    get and delete, every choice of skip-list levels (they do not enter this layer) and every comparator that is a
@@ -176,3 +176,31 @@ Example C01_history_splits :
   (length (snd st), length (flat key value (snd st)), last outs (OutDel value false))
   = (2, 39, OutGet value (Some [7%Z])).
 Proof. vm_compute. reflexivity. Qed.
+
+(* Entry points.  The compound-mode theorems above are over keys with an encodable compound part (0 <= c < 2^63); every key
+   that passes an entry point is such a key, a negative compound part is refused by put/get/del and nothing changes, and
+   for every accepted key the size reserved for the record's key is the size written (the entry point before the repair
+   8b6b5c3 let `abc` with compound part -1 through: 10 bytes reserved, none written, the record unreadable). *)
+Theorem C01_entry_keys_are_encodable : forall m k comp ek,
+  eff_key m k comp = (ROk, ek) -> (comp < 2 ^ 63)%Z -> ckey_ok ek.
+Proof. exact eff_key_ok_compound. Qed.
+Print Assumptions C01_entry_keys_are_encodable.
+
+Theorem C01_negative_compound_refused : forall (d : db) (k : list Z) (comp : Z) (v : value) (flags ph : Z),
+  km_compound (d_mode d) = true -> (comp < 0)%Z ->
+  fst (db_put d k comp v flags ph) = RInvalidArgs /\ snd (db_put d k comp v flags ph) = d /\
+  db_get d k comp = (RInvalidArgs, []) /\ db_del d k comp = (RInvalidArgs, d).
+Proof. exact negative_compound_refused. Qed.
+Print Assumptions C01_negative_compound_refused.
+
+Theorem C01_stored_size_is_written_size : forall m k comp ek,
+  eff_key m k comp = (ROk, ek) -> (comp < 2 ^ 63)%Z -> km_compound m = true ->
+  stored_size m ek = (Z.of_nat (length (fst ek)) + Z.of_nat (length (set_vnum64 (snd ek))))%Z.
+Proof. exact stored_size_is_written_size. Qed.
+Print Assumptions C01_stored_size_is_written_size.
+
+Theorem C01_old_entry_point_refuted :
+  exists m k comp ek, eff_key_old m k comp = (ROk, ek) /\
+    stored_size m ek <> (Z.of_nat (length (fst ek)) + Z.of_nat (length (set_vnum64 (snd ek))))%Z.
+Proof. exact old_entry_point_refuted. Qed.
+Print Assumptions C01_old_entry_point_refuted.
